@@ -274,6 +274,39 @@ impl<'a> Run<'a> {
                 return;
             }
         }
+        if !model.is_empty() && model.len() <= 300 {
+            // two views of ONE buffer, same length, different positions: equal iff their bits are equal
+            let lead = self.rng.below(9);
+            let mut other = model.clone();
+            let same = self.rng.flip();
+            if !same {
+                let k = self.rng.below(other.len());
+                other[k] ^= 1;
+            }
+            let mut b = BitvecBuilder::default();
+            for _ in 0..lead {
+                b.append_bit(self.rng.flip() as u8);
+            }
+            for x in model.iter().chain(other.iter()) {
+                b.append_bit(*x);
+            }
+            let parent = b.finish();
+            let l = model.len();
+            let v1 = parent.substr(lead, lead + l).expect("harness substr");
+            let v2 = parent.substr(lead + l, lead + 2 * l).expect("harness substr");
+            let keep_parent = self.rng.flip();
+            if !keep_parent {
+                drop(parent);
+            }
+            let e1 = v1 == v2;
+            let e2 = v1.eq_with(&v2) && v2.eq_with(&v1);
+            let e3 = xeh::prelude::Cell::Bitstr(v1.clone()) == xeh::prelude::Cell::Bitstr(v2.clone());
+            if e1 != same || e2 != same || e3 != same {
+                self.fail(op, "eq-views-of-one-buffer", format!("views at {} and {} of one buffer hold {} bits; == says {}, eq_with {}, cell equality {}", lead, lead + l, if same { "the same" } else { "different" }, e1, e2, e3));
+                return;
+            }
+            self.obs.count("eq_checks_between_views_of_one_buffer");
+        }
         self.obs.count("eq_checks");
         if model.len() <= self.max_bits && self.pool.len() < 10 {
             self.pool.push(Ent { bs, model });
